@@ -93,7 +93,7 @@ def symbolize_state(sys, tag='s_', attr_bits=8):
                 continue
             if isinstance(cur, bool):
                 continue
-            if isinstance(cur, int):
+            if isinstance(cur, (int, SymInt)):
                 rng = STATE_RANGES.get(type(leaf).__name__, {}).get(a)
                 if rng is not None:
                     lo, hi = rng(leaf)
@@ -102,7 +102,7 @@ def symbolize_state(sys, tag='s_', attr_bits=8):
                     x, v = core.fresh('%s%s.%s' % (tag, path, a), attr_bits)
                 setattr(leaf, a, x)
                 vars_['%s.%s' % (path, a)] = v
-            elif isinstance(cur, list) and cur and all(isinstance(e, int) for e in cur):
+            elif isinstance(cur, list) and cur and all(isinstance(e, (int, SymInt)) for e in cur):
                 bits = ow or attr_bits
                 new = []
                 for k in range(len(cur)):
